@@ -55,7 +55,10 @@ def run_job(job):
         res = dict(ex.__dict__)
         res["counterexample"] = _jsonable(res["counterexample"])
         res["samples"] = samples
-        res["log"] = _jsonable(inst.LOG[:200])
+        post = getattr(mod, "post_check", None)
+        if post is not None:
+            post(job["func"], job.get("params") or {}, res, list(inst.LOG))
+        res["log"] = _jsonable(inst.LOG[:40])
         res["log_len"] = len(inst.LOG)
     elif kind in ("smt", "concrete"):
         # function returns a dict: status (confirmed|refuted|unknown), plus details
